@@ -71,6 +71,211 @@ func findSwitch(body ast.Node, tag string) *ast.SwitchStmt {
 	return res
 }
 
+// lcPkgFiles holds the files of the package currently analysed (for following
+// calls into same-package helpers).
+var lcPkgFiles []*ast.File
+
+// lcCallee resolves a call to a function or method declared in the package.
+func lcCallee(c *ast.CallExpr) *ast.FuncDecl {
+	name := callName(c)
+	if name == "" {
+		return nil
+	}
+	for _, f := range lcPkgFiles {
+		for _, d := range f.Decls {
+			if fd, ok := d.(*ast.FuncDecl); ok && fd.Name.Name == name && fd.Body != nil {
+				// a qualified call pkg.F(...) is not ours
+				if se, ok := c.Fun.(*ast.SelectorExpr); ok && fd.Recv == nil {
+					if id, ok := se.X.(*ast.Ident); ok && id.Obj == nil && id.Name != "m" {
+						continue
+					}
+				}
+				return fd
+			}
+		}
+	}
+	return nil
+}
+
+// lcParamNames lists the parameter names of a function in order.
+func lcParamNames(fd *ast.FuncDecl) []string {
+	var res []string
+	for _, f := range fd.Type.Params.List {
+		if len(f.Names) == 0 {
+			res = append(res, "_")
+		}
+		for _, n := range f.Names {
+			res = append(res, n.Name)
+		}
+	}
+	return res
+}
+
+// lcStateSwitch finds the `switch <tag>` over the given expression in fd, or -
+// when the decision was extracted - in a same-package helper that is called
+// with that expression as an argument (the tag is then the helper's parameter).
+// It returns the switch and the name the switched value has inside it.
+func lcStateSwitch(fd *ast.FuncDecl, tag string, depth int) (*ast.SwitchStmt, string) {
+	if fd == nil || fd.Body == nil {
+		return nil, ""
+	}
+	if ss := findSwitch(fd.Body, tag); ss != nil {
+		return ss, tag
+	}
+	if depth == 0 {
+		return nil, ""
+	}
+	var res *ast.SwitchStmt
+	var resTag string
+	ast.Inspect(fd.Body, func(n ast.Node) bool {
+		if res != nil {
+			return false
+		}
+		c, ok := n.(*ast.CallExpr)
+		if !ok {
+			return true
+		}
+		for i, a := range c.Args {
+			if exprString(a) != tag {
+				continue
+			}
+			callee := lcCallee(c)
+			if callee == nil {
+				continue
+			}
+			ps := lcParamNames(callee)
+			if i < len(ps) {
+				if ss, t := lcStateSwitch(callee, ps[i], depth-1); ss != nil {
+					res, resTag = ss, t
+				}
+			}
+		}
+		return true
+	})
+	return res, resTag
+}
+
+// lcClauseTarget classifies what a case clause of a state switch decides:
+// ("to", X) a new state X (assigned to one of the given variables, or returned
+// as the first result together with a nil error), ("noop", "") nothing
+// (`return nil` / returning the switched value itself), ("error", "") an error.
+func lcClauseTarget(cc *ast.CaseClause, vars []string, tag string) (string, string) {
+	for _, st := range cc.Body {
+		as, ok := st.(*ast.AssignStmt)
+		if !ok || len(as.Lhs) != 1 || len(as.Rhs) != 1 {
+			continue
+		}
+		for _, v := range vars {
+			if exprString(as.Lhs[0]) == v && strings.HasPrefix(lastIdent(as.Rhs[0]), "State") {
+				return "to", lastIdent(as.Rhs[0])
+			}
+		}
+	}
+	if len(cc.Body) == 0 {
+		return "", ""
+	}
+	rs, ok := cc.Body[len(cc.Body)-1].(*ast.ReturnStmt)
+	if !ok || len(rs.Results) == 0 {
+		return "", ""
+	}
+	last := exprString(rs.Results[len(rs.Results)-1])
+	first := rs.Results[0]
+	switch {
+	case len(rs.Results) == 1 && last == "nil":
+		return "noop", ""
+	case len(rs.Results) == 1 && strings.HasPrefix(lastIdent(first), "State"):
+		return "to", lastIdent(first)
+	case len(rs.Results) >= 2 && last == "nil" && strings.HasPrefix(lastIdent(first), "State"):
+		return "to", lastIdent(first)
+	case len(rs.Results) >= 2 && last == "nil" && exprString(first) == tag:
+		return "noop", ""
+	case last != "nil":
+		return "error", ""
+	}
+	return "", ""
+}
+
+// lcServerStateNames lists the constants of the auctioneer's account state enum.
+func lcServerStateNames() []string {
+	var res []string
+	for _, f := range pkgFiles("auctioneerrpc") {
+		for _, d := range f.Decls {
+			gd, ok := d.(*ast.GenDecl)
+			if !ok || gd.Tok != token.CONST {
+				continue
+			}
+			for _, s := range gd.Specs {
+				vs := s.(*ast.ValueSpec)
+				if id, ok := vs.Type.(*ast.Ident); ok && id.Name == "AuctionAccountState" {
+					for _, n := range vs.Names {
+						res = append(res, n.Name)
+					}
+				}
+			}
+		}
+	}
+	return res
+}
+
+func lcServerStateValues(ce *constEnv) []string {
+	var res []string
+	for _, n := range lcServerStateNames() {
+		res = append(res, intConst(ce, "auctioneerrpc", n))
+	}
+	return res
+}
+
+// lcGuardText renders a guard condition independent of its spelling: the
+// operands of || / && are sorted, a constant compared with == / != stands on
+// the right, parentheses are dropped.
+func lcGuardText(e ast.Expr) string {
+	switch x := e.(type) {
+	case *ast.ParenExpr:
+		return lcGuardText(x.X)
+	case *ast.BinaryExpr:
+		switch x.Op {
+		case token.LOR, token.LAND:
+			var ops []string
+			var flat func(e ast.Expr)
+			flat = func(e ast.Expr) {
+				if p, ok := e.(*ast.ParenExpr); ok {
+					flat(p.X)
+					return
+				}
+				if b, ok := e.(*ast.BinaryExpr); ok && b.Op == x.Op {
+					flat(b.X)
+					flat(b.Y)
+					return
+				}
+				ops = append(ops, lcGuardText(e))
+			}
+			flat(x)
+			sort.Strings(ops)
+			return strings.Join(ops, " "+x.Op.String()+" ")
+		case token.EQL, token.NEQ:
+			l, r := lcGuardText(x.X), lcGuardText(x.Y)
+			if strings.HasPrefix(lastIdent(x.X), "State") && !strings.HasPrefix(lastIdent(x.Y), "State") {
+				l, r = r, l
+			}
+			return l + " " + x.Op.String() + " " + r
+		}
+	}
+	return exprString(e)
+}
+
+// lcSortRows orders table rows "(key, ...)" by their numeric key: the cases
+// of a switch over a state are exclusive, so their order carries no meaning.
+func lcSortRows(rows []string) []string {
+	key := func(r string) int {
+		n := 0
+		fmt.Sscanf(strings.TrimLeft(r, "( "), "%d", &n)
+		return n
+	}
+	res := append([]string(nil), rows...)
+	sort.SliceStable(res, func(i, j int) bool { return key(res[i]) < key(res[j]) })
+	return res
+}
+
 // callName returns the method / function name of a call expression.
 var lcSignificant = map[string]bool{
 	"locateTxByOutput": true, "locateTxByHash": true, "SendOutputs": true,
@@ -90,7 +295,10 @@ func stateArg(fn ast.Node, e ast.Expr) string {
 	if strings.HasPrefix(name, "State") {
 		return name
 	}
-	res := "?" + name
+	// a local variable: the state it was assigned, if that is one constant
+	// (the name of the variable does not matter)
+	consts := map[string]bool{}
+	other := false
 	ast.Inspect(fn, func(n ast.Node) bool {
 		as, ok := n.(*ast.AssignStmt)
 		if !ok || len(as.Lhs) != 1 || len(as.Rhs) != 1 {
@@ -99,12 +307,19 @@ func stateArg(fn ast.Node, e ast.Expr) string {
 		if lastIdent(as.Lhs[0]) == name {
 			r := lastIdent(as.Rhs[0])
 			if strings.HasPrefix(r, "State") {
-				res = r
+				consts[r] = true
+			} else {
+				other = true
 			}
 		}
 		return true
 	})
-	return res
+	if len(consts) == 1 && !other {
+		for c := range consts {
+			return c
+		}
+	}
+	return "*"
 }
 
 // sigCalls lists, in source order, the significant calls below n. Calls
@@ -112,6 +327,10 @@ func stateArg(fn ast.Node, e ast.Expr) string {
 // createTx are prefixed with that condition in brackets; UpdateAccount calls
 // carry the target of their StateModifier.
 func sigCalls(fn ast.Node, n ast.Node) []string {
+	return sigCallsDepth(fn, n, 2)
+}
+
+func sigCallsDepth(fn ast.Node, n ast.Node, depth int) []string {
 	var res []string
 	var walk func(n ast.Node, guard string)
 	walk = func(n ast.Node, guard string) {
@@ -124,7 +343,7 @@ func sigCalls(fn ast.Node, n ast.Node) []string {
 			}
 			walk(x.Cond, guard)
 			g := guard
-			c := exprString(x.Cond)
+			c := lcGuardText(x.Cond)
 			if strings.Contains(c, "onRestart") ||
 				strings.Contains(c, "onRecovery") ||
 				strings.Contains(c, "createTx") ||
@@ -164,6 +383,14 @@ func sigCalls(fn ast.Node, n ast.Node) []string {
 						exprString(x.Args[4]) + ")"
 				}
 				res = append(res, guard+s)
+			} else if depth > 0 {
+				// an extracted same-package helper: its significant calls count as
+				// made here (under the guard of the call site)
+				if callee := lcCallee(x); callee != nil && callee.Body != nil && callee != fn {
+					for _, c := range sigCallsDepth(callee, callee.Body, depth-1) {
+						res = append(res, guard+c)
+					}
+				}
 			}
 			for _, a := range x.Args {
 				walk(a, guard)
@@ -296,6 +523,7 @@ func natList(vals map[string]string, names []string) string {
 
 func genLifecycle() {
 	acctFiles := pkgFiles("account")
+	lcPkgFiles = acctFiles
 	ce := newConstEnv(acctFiles)
 	names, vals := lcStates(acctFiles, ce, "State")
 	if len(names) == 0 {
@@ -345,33 +573,32 @@ func genLifecycle() {
 
 	// ---- HandleAccountConf: state -> new state (default = error)
 	if fd := findFunc(acctFiles, "manager.HandleAccountConf"); fd != nil {
-		ss := findSwitch(fd.Body, "account.State")
+		ss, tag := lcStateSwitch(fd, "account.State", 2)
 		if ss == nil {
-			fail("HandleAccountConf: switch account.State not found")
+			fail("HandleAccountConf: switch over the account state not found (also not in a helper called with it)")
 		} else {
 			var rows []string
 			defErr := false
 			for _, c := range ss.Body.List {
 				cc := c.(*ast.CaseClause)
+				kind, tgt := lcClauseTarget(cc, []string{"newState"}, tag)
 				if cc.List == nil {
-					_, defErr = cc.Body[len(cc.Body)-1].(*ast.ReturnStmt)
+					defErr = kind == "error" || kind == ""
+					if len(cc.Body) > 0 {
+						_, isRet := cc.Body[len(cc.Body)-1].(*ast.ReturnStmt)
+						defErr = defErr && isRet
+					}
 					continue
 				}
-				tgt := ""
-				for _, st := range cc.Body {
-					if as, ok := st.(*ast.AssignStmt); ok && exprString(as.Lhs[0]) == "newState" {
-						tgt = lastIdent(as.Rhs[0])
-					}
-				}
-				if tgt == "" {
-					fail("HandleAccountConf: case without newState assignment")
+				if kind != "to" {
+					fail("HandleAccountConf: case that does not decide a new state")
 					continue
 				}
 				for _, e := range cc.List {
 					rows = append(rows, fmt.Sprintf("(%s, %s)", vals[lastIdent(e)], vals[tgt]))
 				}
 			}
-			l.p("def handleConf : List (Nat × Nat) := [%s]", strings.Join(rows, ", "))
+			l.p("def handleConf : List (Nat × Nat) := [%s]", strings.Join(lcSortRows(rows), ", "))
 			l.p("def handleConfDefaultIsError : Bool := %s", leanBool(defErr))
 			l.p("def handleConfCalls : List String := %s", leanStrList(sigCalls(fd, fd.Body)))
 		}
@@ -381,37 +608,32 @@ func genLifecycle() {
 
 	// ---- HandleAccountExpiry: state -> some newState | none (= return nil)
 	if fd := findFunc(acctFiles, "manager.HandleAccountExpiry"); fd != nil {
-		ss := findSwitch(fd.Body, "account.State")
+		ss, tag := lcStateSwitch(fd, "account.State", 2)
 		if ss == nil {
-			fail("HandleAccountExpiry: switch account.State not found")
+			fail("HandleAccountExpiry: switch over the account state not found (also not in a helper called with it)")
 		} else {
 			var rows []string
 			defErr := false
 			for _, c := range ss.Body.List {
 				cc := c.(*ast.CaseClause)
+				kind, tgtName := lcClauseTarget(cc, []string{"expiredState"}, tag)
 				if cc.List == nil {
-					if rs, ok := cc.Body[len(cc.Body)-1].(*ast.ReturnStmt); ok {
-						defErr = exprString(rs.Results[0]) != "nil"
-					}
+					defErr = kind == "error"
 					continue
 				}
 				tgt := "none"
-				for _, st := range cc.Body {
-					if as, ok := st.(*ast.AssignStmt); ok && exprString(as.Lhs[0]) == "expiredState" {
-						tgt = "some " + vals[lastIdent(as.Rhs[0])]
-					}
-				}
-				if tgt == "none" {
-					rs, ok := cc.Body[len(cc.Body)-1].(*ast.ReturnStmt)
-					if !ok || exprString(rs.Results[0]) != "nil" {
-						fail("HandleAccountExpiry: case neither assigns expiredState nor returns nil")
-					}
+				switch kind {
+				case "to":
+					tgt = "some " + vals[tgtName]
+				case "noop":
+				default:
+					fail("HandleAccountExpiry: case neither decides an expired state nor returns nil")
 				}
 				for _, e := range cc.List {
 					rows = append(rows, fmt.Sprintf("(%s, %s)", vals[lastIdent(e)], tgt))
 				}
 			}
-			l.p("def handleExpiry : List (Nat × Option Nat) := [%s]", strings.Join(rows, ", "))
+			l.p("def handleExpiry : List (Nat × Option Nat) := [%s]", strings.Join(lcSortRows(rows), ", "))
 			l.p("def handleExpiryDefaultIsError : Bool := %s", leanBool(defErr))
 			l.p("def handleExpiryCalls : List String := %s", leanStrList(sigCalls(fd, fd.Body)))
 		}
@@ -421,50 +643,130 @@ func genLifecycle() {
 
 	// ---- HandleAccountSpend: witness-kind switch, closing state
 	if fd := findFunc(acctFiles, "manager.HandleAccountSpend"); fd != nil {
-		var kinds []string
-		var ws *ast.SwitchStmt
-		for _, st := range fd.Body.List {
-			if ss, ok := st.(*ast.SwitchStmt); ok && ss.Tag == nil {
-				ws = ss
+		// The witness classification is a tagless switch or an if / else-if
+		// chain over the poolscript witness predicates; both read the same.
+		type branch struct {
+			cond string
+			body []ast.Stmt
+		}
+		isWitnessCond := func(e ast.Expr) bool {
+			c := exprString(e)
+			return strings.Contains(c, "ExpirySpend") || strings.Contains(c, "MultiSigSpend")
+		}
+		var branches []branch
+		var after []ast.Stmt
+		for i, st := range fd.Body.List {
+			switch x := st.(type) {
+			case *ast.SwitchStmt:
+				if x.Tag != nil {
+					continue
+				}
+				hit := false
+				for _, c := range x.Body.List {
+					cc := c.(*ast.CaseClause)
+					for _, e := range cc.List {
+						hit = hit || isWitnessCond(e)
+					}
+				}
+				if !hit {
+					continue
+				}
+				for _, c := range x.Body.List {
+					cc := c.(*ast.CaseClause)
+					cond := ""
+					if cc.List != nil {
+						var cs []string
+						for _, e := range cc.List {
+							cs = append(cs, exprString(e))
+						}
+						cond = strings.Join(cs, " || ")
+					}
+					branches = append(branches, branch{cond, cc.Body})
+				}
+				after = fd.Body.List[i+1:]
+			case *ast.IfStmt:
+				if x.Init != nil || !isWitnessCond(x.Cond) {
+					continue
+				}
+				var cur ast.Stmt = x
+				for cur != nil {
+					switch y := cur.(type) {
+					case *ast.IfStmt:
+						branches = append(branches, branch{exprString(y.Cond), y.Body.List})
+						cur = y.Else
+					case *ast.BlockStmt:
+						branches = append(branches, branch{"", y.List})
+						cur = nil
+					default:
+						cur = nil
+					}
+				}
+				after = fd.Body.List[i+1:]
+			}
+			if branches != nil {
+				break
 			}
 		}
-		if ws == nil {
-			fail("HandleAccountSpend: witness switch not found")
+		var kinds, outcomes []string
+		msCalls := []string{}
+		closing := []string{}
+		if branches == nil {
+			fail("HandleAccountSpend: witness classification (switch or if-chain over the spend predicates) not found")
 		} else {
-			for _, c := range ws.Body.List {
-				cc := c.(*ast.CaseClause)
+			// a default branch sorts last whatever its position (Go semantics)
+			var ordered []branch
+			var defaults []branch
+			for _, b := range branches {
+				if b.cond == "" {
+					defaults = append(defaults, b)
+				} else {
+					ordered = append(ordered, b)
+				}
+			}
+			for _, b := range append(ordered, defaults...) {
 				kind := "default"
-				if cc.List != nil {
-					c0 := exprString(cc.List[0])
+				if b.cond != "" {
+					exp := strings.Contains(b.cond, "IsExpirySpend") && strings.Contains(b.cond, "IsTaprootExpirySpend")
+					ms := strings.Contains(b.cond, "IsMultiSigSpend") && strings.Contains(b.cond, "IsTaprootMultiSigSpend")
 					switch {
-					case strings.Contains(c0, "IsExpirySpend") && strings.Contains(c0, "IsTaprootExpirySpend"):
+					case exp && !ms:
 						kind = "expiry"
-					case strings.Contains(c0, "IsMultiSigSpend") && strings.Contains(c0, "IsTaprootMultiSigSpend"):
+					case ms && !exp:
 						kind = "multisig"
 					default:
-						kind = "?" + c0
+						kind = "?" + b.cond
 					}
 				}
+				blk := &ast.BlockStmt{List: b.body}
+				calls := sigCalls(fd, blk)
 				body := "other"
-				if len(cc.Body) == 1 {
-					if br, ok := cc.Body[0].(*ast.BranchStmt); ok && br.Tok == token.BREAK {
+				switch {
+				case len(calls) > 0:
+					body = strings.Join(calls, ";")
+				case len(b.body) > 0:
+					if rs, ok := b.body[len(b.body)-1].(*ast.ReturnStmt); ok && len(rs.Results) > 0 &&
+						exprString(rs.Results[len(rs.Results)-1]) != "nil" {
+
+						body = "return-error"
+					} else if !ok {
 						body = "break"
 					}
-					if _, ok := cc.Body[0].(*ast.ReturnStmt); ok {
-						body = "return-error"
-					}
-				}
-				if kind == "multisig" {
-					body = strings.Join(sigCalls(fd, cc), ";")
+				default:
+					body = "break"
 				}
 				kinds = append(kinds, kind+":"+body)
+				if len(calls) > 0 {
+					body = "calls"
+				}
+				outcomes = append(outcomes, fmt.Sprintf("(%q, %q)", kind, body))
+				if kind == "multisig" {
+					msCalls = calls
+				}
 			}
 			l.p("def handleSpendCases : List String := %s", leanStrList(kinds))
-		}
-		last, ok := fd.Body.List[len(fd.Body.List)-1].(*ast.ReturnStmt)
-		closing := []string{}
-		if ok {
-			closing = sigCalls(fd, last)
+			l.p("def handleSpendKinds : List (String × String) := [%s]", strings.Join(outcomes, ", "))
+			l.p("def handleSpendMultisigCalls : List String := %s", leanStrList(msCalls))
+			closing = sigCalls(fd, &ast.BlockStmt{List: after})
 		}
 		l.p("def handleSpendFinal : List String := %s", leanStrList(closing))
 	} else {
@@ -473,7 +775,7 @@ func genLifecycle() {
 
 	// ---- resumeAccount: per-state ordered significant calls
 	if fd := findFunc(acctFiles, "manager.resumeAccount"); fd != nil {
-		ss := findSwitch(fd.Body, "account.State")
+		ss, _ := lcStateSwitch(fd, "account.State", 1)
 		if ss == nil {
 			fail("resumeAccount: switch account.State not found")
 		} else {
@@ -490,7 +792,7 @@ func genLifecycle() {
 					rows = append(rows, fmt.Sprintf("(%s, %s)", vals[lastIdent(e)], leanStrList(calls)))
 				}
 			}
-			l.p("def resume : List (Nat × List String) := [%s]", strings.Join(rows, ",\n  "))
+			l.p("def resume : List (Nat × List String) := [%s]", strings.Join(lcSortRows(rows), ",\n  "))
 			l.p("def resumeDefaultIsError : Bool := %s", leanBool(defErr))
 		}
 	} else {
@@ -524,35 +826,41 @@ func genLifecycle() {
 
 	// ---- unmarshallServerRecoveredAccount: server state -> local state
 	aucFiles := pkgFiles("auctioneer")
+	lcPkgFiles = aucFiles
 	rpcCE := newConstEnv(pkgFiles("auctioneerrpc"))
 	if fd := findFunc(aucFiles, "unmarshallServerRecoveredAccount"); fd != nil {
-		ss := findSwitch(fd.Body, "a.State")
+		ss, tag := lcStateSwitch(fd, "a.State", 2)
 		def := ""
 		for _, st := range fd.Body.List {
 			if as, ok := st.(*ast.AssignStmt); ok && as.Tok == token.DEFINE &&
-				exprString(as.Lhs[0]) == "state" {
+				exprString(as.Lhs[0]) == "state" &&
+				strings.HasPrefix(lastIdent(as.Rhs[0]), "State") {
 
 				def = lastIdent(as.Rhs[0])
 			}
 		}
+		if ss != nil {
+			// a default clause (helper form) decides the default as well
+			for _, c := range ss.Body.List {
+				if cc := c.(*ast.CaseClause); cc.List == nil {
+					if kind, t := lcClauseTarget(cc, []string{"state"}, tag); kind == "to" {
+						def = t
+					}
+				}
+			}
+		}
 		if ss == nil || def == "" {
-			fail("unmarshallServerRecoveredAccount: switch a.State / default state not found")
+			fail("unmarshallServerRecoveredAccount: switch over the server state / default state not found")
 		} else {
 			var rows []string
 			for _, c := range ss.Body.List {
 				cc := c.(*ast.CaseClause)
 				if cc.List == nil {
-					fail("unmarshallServerRecoveredAccount: unexpected default clause")
 					continue
 				}
-				tgt := ""
-				for _, st := range cc.Body {
-					if as, ok := st.(*ast.AssignStmt); ok && exprString(as.Lhs[0]) == "state" {
-						tgt = lastIdent(as.Rhs[0])
-					}
-				}
-				if tgt == "" {
-					fail("unmarshallServerRecoveredAccount: case without state assignment")
+				kind, tgt := lcClauseTarget(cc, []string{"state"}, tag)
+				if kind != "to" {
+					fail("unmarshallServerRecoveredAccount: case that does not decide a state")
 					continue
 				}
 				for _, e := range cc.List {
@@ -560,7 +868,18 @@ func genLifecycle() {
 						intConst(rpcCE, "auctioneerrpc", lastIdent(e)), vals[tgt]))
 				}
 			}
-			l.p("def recoveryMap : List (Nat × Nat) := [%s]", strings.Join(rows, ", "))
+			// total over the server's enum: a state handled by the default and one
+			// listed with the default's target are the same mapping
+			have := map[string]bool{}
+			for _, r := range rows {
+				have[strings.TrimSpace(strings.Split(strings.TrimLeft(r, "("), ",")[0])] = true
+			}
+			for _, v := range lcServerStateValues(rpcCE) {
+				if !have[v] {
+					rows = append(rows, fmt.Sprintf("(%s, %s)", v, vals[def]))
+				}
+			}
+			l.p("def recoveryMap : List (Nat × Nat) := [%s]", strings.Join(lcSortRows(rows), ", "))
 			l.p("def recoveryDefault : Nat := %s", vals[def])
 		}
 		// latestTx is parsed unless a.State == <const>
@@ -610,21 +929,47 @@ func genLifecycle() {
 	if fd := findFunc(aucFiles, "Client.RecoverAccounts"); fd != nil {
 		aucCE := newConstEnv(aucFiles)
 		l.p("def maxUnusedAccountKeyLookup : Nat := %s", intConst(aucCE, "auctioneer", "MaxUnusedAccountKeyLookup"))
-		stop, reset, incr := "", false, false
+		// the miss counter is whatever variable the stop condition compares with
+		// MaxUnusedAccountKeyLookup; it is rendered as `misses` (its name and the
+		// side it stands on do not matter)
+		stop, reset, incr, counter := "", false, false, ""
+		ast.Inspect(fd.Body, func(n ast.Node) bool {
+			x, ok := n.(*ast.IfStmt)
+			if !ok {
+				return true
+			}
+			be, ok := x.Cond.(*ast.BinaryExpr)
+			if !ok || !strings.Contains(exprString(x.Cond), "MaxUnusedAccountKeyLookup") {
+				return true
+			}
+			for _, side := range []ast.Expr{be.X, be.Y} {
+				if id, ok := side.(*ast.Ident); ok && id.Name != "MaxUnusedAccountKeyLookup" {
+					counter = id.Name
+				}
+			}
+			if counter != "" {
+				stop = strings.ReplaceAll(" "+canonCmp(x.Cond)+" ", " "+counter+" ", " misses ")
+				stop = strings.TrimSpace(stop)
+			}
+			return true
+		})
 		ast.Inspect(fd.Body, func(n ast.Node) bool {
 			switch x := n.(type) {
-			case *ast.IfStmt:
-				if strings.Contains(exprString(x.Cond), "MaxUnusedAccountKeyLookup") {
-					stop = canonCmp(x.Cond)
-				}
 			case *ast.AssignStmt:
-				if len(x.Lhs) == 1 && exprString(x.Lhs[0]) == "numNotFoundAccounts" &&
+				if len(x.Lhs) == 1 && counter != "" && exprString(x.Lhs[0]) == counter &&
 					x.Tok == token.ASSIGN && exprString(x.Rhs[0]) == "0" {
 
 					reset = true
 				}
+				if len(x.Lhs) == 1 && counter != "" && exprString(x.Lhs[0]) == counter &&
+					((x.Tok == token.ADD_ASSIGN && exprString(x.Rhs[0]) == "1") ||
+						(x.Tok == token.ASSIGN && (exprString(x.Rhs[0]) == counter+" + 1" ||
+							exprString(x.Rhs[0]) == "1 + "+counter))) {
+
+					incr = true
+				}
 			case *ast.IncDecStmt:
-				if exprString(x.X) == "numNotFoundAccounts" && x.Tok == token.INC {
+				if counter != "" && exprString(x.X) == counter && x.Tok == token.INC {
 					incr = true
 				}
 			}
@@ -640,7 +985,8 @@ func genLifecycle() {
 	// ---- batch storer account modifiers
 	ordFiles := pkgFiles("order")
 	if fd := findFunc(ordFiles, "batchStorer.StorePendingBatch"); fd != nil {
-		ss := findSwitch(fd.Body, "diff.EndingState")
+		lcPkgFiles = ordFiles
+		ss, _ := lcStateSwitch(fd, "diff.EndingState", 2)
 		if ss == nil {
 			fail("StorePendingBatch: switch diff.EndingState not found")
 		} else {
@@ -669,7 +1015,7 @@ func genLifecycle() {
 						intConst(rpcCE, "auctioneerrpc", lastIdent(e)), vals[tgt], leanBool(hasOp), leanBool(hasInc)))
 				}
 			}
-			l.p("def storerEnding : List (Nat × Nat × Bool × Bool) := [%s]", strings.Join(rows, ", "))
+			l.p("def storerEnding : List (Nat × Nat × Bool × Bool) := [%s]", strings.Join(lcSortRows(rows), ", "))
 		}
 	} else {
 		fail("batchStorer.StorePendingBatch not found")
